@@ -7,15 +7,24 @@ Close Scope Q_scope.
 Open Scope string_scope.
 Open Scope list_scope.
 
-Definition tol : Q := (1 # 1000000000000)%Q.          (* 1e-12 *)
-Definition qclose (x y : Q) : bool := Qle_bool (Qabs (x - y)%Q) tol.
+(* Evaluation for the comparison: binary fixed point with 120 fractional bits (values are Z mantissas).
+   Exact rational arithmetic on Fraction(float) inputs would spend its time in gcds of 500-bit numbers;
+   the rounding error here (2^-120 per operation) is far below the tolerance 1e-12. *)
+Definition SH : Z := 120%Z.
+Definition fx_ofQ (q : Q) : Z := Z.div (Z.shiftl (Qnum q) SH) (Zpos (Qden q)).
+Definition fx_mul (a b : Z) : Z := Z.shiftr (a * b) SH.
+Definition FxRing : Ring Z := mkRing 0%Z (Z.shiftl 1 SH) Z.add fx_mul Z.opp Z.eqb.
+Definition fx_tol : Z := fx_ofQ (1 # 1000000000000)%Q.          (* 1e-12 *)
+Definition qclose (x : Z) (y : Q) : bool := Z.leb (Z.abs (x - fx_ofQ y)) fx_tol.
 
 (* evaluation point: c = cos θ', s = sin θ' (rational on the exact stream), r ≈ 1/sqrt 2,
    w = [cos a; sin a; cos b; sin b; cos c; sin c] of the observed Weyl coordinates (KAK path) *)
-Definition QenvCoef (c s : Q) (w : list Q) : Coef Q :=
-  let C0 := QevalCoef c s r_approx in
-  mkCoef (cring C0) (cofQ C0)
-         (fun n => if Nat.leb 3 n && Nat.leb n 8 then nth (n - 3) w 0%Q else cvar C0 n).
+Definition QenvCoef (c s : Q) (w : list Q) : Coef Z :=
+  mkCoef FxRing fx_ofQ
+         (fun n => match n with
+                   | 0 => fx_ofQ c | 1 => fx_ofQ s | 2 => fx_ofQ r_approx
+                   | _ => if Nat.leb n 8 then fx_ofQ (nth (n - 3) w 0%Q) else 0%Z
+                   end).
 
 (* ---------- operation codes shared with harness/c02.py ---------- *)
 Definition ang_code (a : ang) : nat :=
@@ -90,7 +99,7 @@ Definition target_of (name : string) : option (list (list cxe)) :=
   | Some p => Some (snd p)
   | None => None
   end.
-Definition cclose (x : Q * Q) (y : Q * Q) : bool := qclose (fst x) (fst y) && qclose (snd x) (snd y).
+Definition cclose (x : Z * Z) (y : Q * Q) : bool := qclose (fst x) (fst y) && qclose (snd x) (snd y).
 (* (name, (c, s), gate.to_matrix() as (re, im) entries) *)
 Definition chk_unitary (k : string * (Q * Q) * list (list (Q * Q))) : bool :=
   let '(name, (c, s), e) := k in
